@@ -83,6 +83,22 @@ func (x *Exec) binderValue(fr *Frame, li *LoopInfo, st *State, name string) (Val
 			return x.snap(v), true
 		}
 	}
+	// 0b. old_<pointer parameter>: the pointee as it was at function entry (a value, not a pointer)
+	if strings.HasPrefix(name, "old_") && fr.entryHeap != nil {
+		for _, p := range fr.fn.Params {
+			if p.Name() == strings.TrimPrefix(name, "old_") {
+				if pv, ok := st.regs[p].(PtrV); ok && pv.Obj != nil {
+					if v, ok := fr.entryHeap.m[pv.Obj]; ok {
+						saved := x.st
+						x.st = &State{pc: st.pc, heap: fr.entryHeap}
+						r := x.loadPath(v, pv.Path)
+						x.st = saved
+						return r, true
+					}
+				}
+			}
+		}
+	}
 	// 1. phi at the loop head
 	for _, ins := range li.head.Instrs {
 		if ph, ok := ins.(*ssa.Phi); ok && ph.Comment == name {
